@@ -88,6 +88,24 @@ func (b *Backend) Close(ctx context.Context) {
 	}
 }
 
+// Reopen closes the file-backed sqlite vault and opens the same database file again (a restart), with
+// the registry of set. Other back ends are left as they are.
+func (b *Backend) Reopen(ctx context.Context, set *Set) error {
+	if b.Dir == "" {
+		return nil
+	}
+	if b.sql != nil {
+		b.sql.Close()
+	}
+	b.Vault.Close(ctx)
+	nb, err := OpenFile(ctx, b.Dir, set)
+	if err != nil {
+		return err
+	}
+	b.Vault, b.sql = nb.Vault, nb.sql
+	return nil
+}
+
 // HasCounts says whether Counts is available (file-backed sqlite only).
 func (b *Backend) HasCounts() bool { return b.sql != nil }
 
